@@ -156,7 +156,9 @@ func ruleFieldFlow(c *Ctx, r *Report, s ffSpec) {
 	}
 	for _, sk := range sinks {
 		sites = append(sites, w.pos(sk.Pos))
-		at := w.exprAtoms(fi, sk.Expr)
+		// (a sink written in a helper shared with other functions is read with the arguments THIS function passes)
+		var at *Atoms
+		w.withHost(s.Fn, func() { at = w.exprAtoms(fi, sk.Expr) })
 		for _, m := range s.Must {
 			if !at.Fields[m] {
 				viol = fmt.Sprintf("%s: %s.%s is not fed from %s (atoms: %s)", w.pos(sk.Pos), ownerName(s.Owner), s.Field, m, at)
